@@ -62,8 +62,9 @@ pub fn unrecoverable<'text, Sc, F, V>(mut parser: F)
     move |lexer, ctx| {
         let _trace_span = span!(Level::DEBUG, "~unrec").entered();
 
-        let mut ctx = ctx.clone();
-        let _ = ctx.take_error_sink();
+        // NOTE: The sink is shared by every clone of the context, so it must
+        // not be taken out of it: the enclosing parse still needs it.
+        let ctx = ctx.without_error_sink();
         event!(Level::TRACE, "error recovery disabled");
         
         (parser)
